@@ -67,6 +67,15 @@ const (
 	kNilMapRead    = "nil-map-read"
 	kAppendNil     = "append-nil-slice"
 	kLitOrder      = "literal-eval-order"
+	// audit of the unmodified compiler by a seeding agent + what the new shapes (arrays, function literals held by
+	// variables, selector styles, observers) ran into; all repaired
+	kUsedGlobalDropped = "used-global-dropped"
+	kLambdaInInit      = "lambda-inside-initialize"
+	kInitReturn        = "init-return-leaves-initialize"
+	kFuncLitVarDecl    = "global-funclit-var-decl"
+	kFuncValueArgs     = "func-value-args-reversed"
+	kDerefStore        = "deref-field-store-lost"
+	kXorAssign         = "xor-assign-rejected"
 )
 
 type vinfo struct {
@@ -90,6 +99,7 @@ type vinfo struct {
 	maxLen   float64 // string / []byte: upper bound of the length
 	noAppend bool    // string: += is not allowed (the bound has no room for growth)
 	hidden   bool    // temporarily not usable in expressions
+	sel      string  // struct / pointer: how selectors on this variable are written: v.x, "paren": (v).x, "deref": (*v).x
 }
 
 type fsig struct {
@@ -110,6 +120,7 @@ type fsig struct {
 	exported   bool
 	writesG    bool
 	recovers   bool
+	hasDefer   bool
 	idx        int
 	resAscii   bool
 	resMinLen  int
@@ -147,6 +158,8 @@ type fctx struct {
 	inLambda  bool
 	inInit    bool
 	nDefers   int
+	// hasRecover: some deferred literal generated so far calls recover()
+	hasRecover bool
 	// noSoftExpr: catchable exceptions may only be raised by statements executed with an empty evaluation
 	// stack (a recovering function would otherwise return with residue on the stack); stackItems counts the
 	// enclosing range loops and switches, which keep their state on the evaluation stack.
@@ -171,6 +184,9 @@ type gen struct {
 	gotoProg bool
 	tickProg bool
 	tickV    *vinfo
+	// markV: the trace g8 of the deferred calls (side.go), markFn: the helper mark is called somewhere
+	markV  *vinfo
+	markFn bool
 }
 
 func (g *gen) mark(s string) { g.feat[s] = true }
@@ -546,7 +562,15 @@ func (g *gen) genInt(d int) ex {
 				return e
 			}
 		}
+		if g.chance(40) {
+			if e, ok := g.genArrayRead(d); ok {
+				return e
+			}
+		}
 		if e, ok := g.genIndexInt(d); ok {
+			return e
+		}
+		if e, ok := g.genArrayRead(d); ok {
 			return e
 		}
 		return g.intLit()
@@ -797,6 +821,37 @@ func (g *gen) structDef(name string) *StructDef {
 	return nil
 }
 
+// selBase is the operand of a field selector on v, in the style chosen for the variable when it was declared.
+func selBase(v *vinfo) *Node {
+	switch v.sel {
+	case "paren":
+		return &Node{K: "paren", A: []*Node{vr(v.name)}}
+	case "deref":
+		return &Node{K: "deref", A: []*Node{vr(v.name)}}
+	}
+	return vr(v.name)
+}
+
+// selStyle draws the selector style of a new struct / pointer variable.
+func (g *gen) selStyle(v *vinfo) {
+	if g.structDef(baseStruct(v.typ)) == nil || !g.chance(12) {
+		return
+	}
+	v.sel = "paren"
+	if v.typ[0] == '*' && g.chance(60) {
+		v.sel = "deref"
+	}
+	g.mark("selector-" + v.sel)
+}
+
+// rootVar strips selectors, indices, parentheses and dereferences.
+func rootVar(n *Node) *Node {
+	for n.K == "field" || n.K == "index" || n.K == "paren" || n.K == "deref" {
+		n = n.A[0]
+	}
+	return n
+}
+
 func baseStruct(typ string) string {
 	if len(typ) > 0 && typ[0] == '*' {
 		return typ[1:]
@@ -834,7 +889,7 @@ func (g *gen) genFieldRead(typ string) (ex, bool) {
 	}
 	c := cs[g.n(len(cs), "fld")]
 	g.useVar(c.v)
-	n := vr(c.v.name)
+	n := selBase(c.v)
 	for _, p := range c.path {
 		n = &Node{K: "field", S: p, A: []*Node{n}}
 	}
@@ -1058,6 +1113,16 @@ func (g *gen) genFreshOf(typ string, d int) (ex, bool) {
 			e := fitStore(g.genInt(0))
 			n.A = append(n.A, ilit(key), e.n)
 		}
+		if kv := g.pickVar("int", nil); kv != nil && g.chance(15) {
+			// a key that is not a constant (far away from the constant ones: equal keys in one literal are another matter)
+			g.useVar(kv)
+			e := fitStore(g.genInt(0))
+			n.A = append(n.A, bin("+", bin("&", vr(kv.name), ilit(7)), ilit(100)), e.n)
+			if g.chance(50) && kv.lo >= 100 {
+				n.A[len(n.A)-2] = vr(kv.name)
+			}
+			g.mark("map-literal-var-key")
+		}
 		return ex{n: n, fresh: true}, true
 	case "map[string]int":
 		k := g.rng(0, 3, "ml")
@@ -1073,6 +1138,9 @@ func (g *gen) genFreshOf(typ string, d int) (ex, bool) {
 			n.A = append(n.A, slitS(key), e.n)
 		}
 		return ex{n: n, fresh: true}, true
+	}
+	if isArray(typ) {
+		return g.arrLit(typ, d), true
 	}
 	base := baseStruct(typ)
 	sd := g.structDef(base)
